@@ -99,6 +99,7 @@ class Verdict:
         self.model = model
         self.reason = reason
         self.trace = getattr(ob, "trace", [])
+        self.ob = ob
 
 
 def discharge(obligations, timeout_ms=10000, procs=None, use_cvc5=True, cvc5_timeout=20):
